@@ -68,7 +68,7 @@ DirLineClauses(c, S) ==
    <<"directed_line_graph:vertices_and_id_table", \A g \in L : Ret(g) => LineVerticesOK(g, S)>>,
    <<"directed_line_graph:arcs", \A g \in L : (Ret(g) /\ LineVerticesOK(g, S)) =>
         /\ \A e \in Rng(g.edges) : {e[1], e[2]} \subseteq Rng(g.nodes)
-        /\ {<<KeyOf(g, e[1]), KeyOf(g, e[2])>> : e \in Rng(g.edges)} = DirLineArcs(S, g.dist, Thr(g))>>,
+        /\ {<<KeyOf(g, e[1]), KeyOf(g, e[2])>> : e \in {x \in Rng(g.edges) : x[1] # x[2]}} = DirLineArcs(S, g.dist, Thr(g))>>,
    <<"directed_line_graph:weights", \A g \in L : (Ret(g) /\ LineVerticesOK(g, S) /\ g.weighted) =>
         \A e \in Rng(g.edges) : {e[1], e[2]} \subseteq Rng(g.nodes) =>
             /\ e[3][2] > 0
